@@ -18,7 +18,7 @@ from symx.core import reraise_if_harness  # noqa: E402
 
 LEVEL = "other"
 FUNCTIONS = ["black_it.utils.base:get_closest", "black_it.utils.base:digitize_data"]
-NUMBER_MODEL = "R (exact reals), R~ (reals + uninterpreted rounding of every subtraction with ground monotone/sign/odd axioms) and F16 (bit-precise IEEE half precision, grids of <= 2 elements)"
+NUMBER_MODEL = "R (exact reals), R~ (reals + uninterpreted rounding of every subtraction with ground monotone/sign/odd axioms) and F16 (bit-precise IEEE half precision: 1-element grids in the quick tier, <= 2 elements in the thorough tier)"
 EXPLANATION = (
     "Bounded symbolic execution of the real get_closest/digitize_data: grid elements and values are z3 Reals "
     "(arbitrary strictly increasing grid, value anywhere), every path of numpy's searchsorted + the step-back rule is "
@@ -255,7 +255,10 @@ def cases(tier, seed):
         cs.append(case_idem(n))
     # three-element grids in half precision left the solver without an answer within 2 minutes per query: the bit-precise claim is
     # for grids of <= 2 elements in both tiers (the thorough tier gives the query more time)
-    for n in (1, 2):
+    # The 2-element case took between 3 and more than 15 minutes from one run to the next on the same code (the floating-point
+    # queries are at the edge of what z3 decides): too unstable for a check that runs on every change, so the quick tier keeps
+    # the 1-element grid and the 2-element grid is decided in the thorough tier with a generous per-query limit.
+    for n in ((1,) if tier == "quick" else (1, 2)):
         cs.append(case_f16(n, solver_timeout_ms=120000 if tier == "quick" else 900000))
     for shape, ns in dig:
         cs.append(case_digitize(shape, ns))
